@@ -47,7 +47,7 @@ func pureExternal(fn *ssa.Function) bool {
 
 func (ex *Exec) lookupContract(key string, arg0 Val) *Contract {
 	c := ex.cs.Funcs[key]
-	if c == nil {
+	if c == nil || c.Sweep {
 		return nil
 	}
 	cands := append([]*Contract{c}, ex.cs.Formats[key]...)
@@ -457,6 +457,7 @@ func (ex *Exec) applyContract(fr *Frame, st *State, ct *Contract, key string, na
 				}
 				ex.sc.Assert(T(SBool, fmt.Sprintf("(forall ((r!q Int)) (! (=> (and (< r!q %s)%s) (= (select %s r!q) (select %s r!q))) :pattern ((select %s r!q))))", allocPre.S, excl, nw.S, rk.pre.S, nw.S)))
 				st.heap[rk.key] = nw
+				ex.fieldInvAxiom(rk.key, nw, st.alloc)
 			}
 		}
 	} else if !ct.Extern {
